@@ -283,6 +283,7 @@ func (s *scope) reportLoopRun() {
 }
 
 func (s *scope) reportRegistry() {
+	verifhook.At("rr_begin")
 	if s.reporter != nil {
 		s.registry.Report(s.reporter)
 		s.reporter.Flush()
@@ -290,6 +291,7 @@ func (s *scope) reportRegistry() {
 		s.registry.CachedReport()
 		s.cachedReporter.Flush()
 	}
+	verifhook.At("rr_end")
 }
 
 func (s *scope) Counter(name string) Counter {
